@@ -46,6 +46,10 @@ async def check_tree(ctx, case):
             ctx.evaluation()
             results.append(outcome_summary(out))
         ctx.count("relation_instances")
+        if results[0][0] == "exc":
+            other_flag = await TB.validate(spec, E.World("c14", rc=asg, fc={k: (int(k) % 2 == 0) for k in POOLS.fc}), not soll, scheduler=None)
+            if other_flag[0] == "ok":
+                ctx.count("unknown_decided_by_soll_only")
         base = results[0]
         if base[0] == "exc" and base[1] not in ("NotImplementedError",):
             ctx.violation(f"validation-raises-{base[1]}", f"validate_deep_anwendungshandbuch(soll_is_required={soll}) under {asg} raised {base[1]}")
@@ -91,13 +95,18 @@ async def check_tree(ctx, case):
 
 def gen_case(ctx, rng):
     gen = T.TreeGen(rng, parts_factory(rng, soll_bias=0.8), max_depth=2 if ctx.quick else rng.choice([2, 3]), max_branch=3, p_pool=0.25)
-    return {"spec": gen.tree(), "asg": draw_assignment(rng, POOLS.rc, p_unknown_tree=0.2), "schedule_seed": rng.randrange(1 << 30)}
+    asg = draw_assignment(rng, POOLS.rc, p_unknown_tree=0.15)
+    if rng.random() < 0.35:
+        # exactly one UNKNOWN key: with some luck it is visited only below SOLL, where the flag decides between refusing (as MUSS) and optional (as KANN)
+        asg = {k: rng.choice("FU") for k in POOLS.rc}
+        asg[rng.choice(POOLS.rc)] = "K"
+    return {"spec": gen.tree(), "asg": asg, "schedule_seed": rng.randrange(1 << 30)}
 
 
 async def run(ctx):
     rng = ctx.rng
     E.install()
-    for i in range(ctx.budget(130, 13_000)):
+    for i in range(ctx.budget(240, 24_000)):
         case = gen_case(ctx, rng)
         await check_tree(ctx, case)
         if i % 50 == 0:
